@@ -88,7 +88,7 @@ func c04Body(modes []c04Mode) func(x *X) {
 		mode := modes[x.Choose(len(modes))]
 		script := c04Scripts[x.Choose(len(c04Scripts))]
 		drop := x.Choose(len(script) + 1)  // 0: stay until everything is answered; j: disappear after the j-th frame
-		encName := encNames[x.Choose(2)*2] // default or code
+		encName := []string{"", "code", "yield-pb"}[x.Choose(3)]
 		so := mode.so
 		so.enc = encName
 		enc := wireEncoder(encName)
